@@ -520,6 +520,9 @@ var vfStderrTemplates = []string{
 	"Suite/verif-c11/case-%d:no space after colon",
 	"Suite/verif-c11/case-%d",
 	"plain log line without separator",
+	// log lines with percent signs (an escaped path, a percentage, something that looks like a format verb)
+	"2024/01/01 12:00:00 GET /connectrpc.conformance.v1.ConformanceService/Unary%20Call 404",
+	"load at 100% after 3 requests; %s %v %!",
 	"2024/01/01 12:00:00 http: TLS handshake error: EOF",
 	"",
 	"   ",
